@@ -83,6 +83,24 @@ class RbufGen:
         return out
 
 
+def _rbuf_scale(self, rng, tier):
+    """one long history per capacity: more than 2^16 enqueues on one buffer (free-running 16-bit counters, wrap-around
+    arithmetic on head/tail), with wide items and dequeues mixed in"""
+    out = []
+    for cap in ([10] if tier == "quick" else [1, 3, 10, 16, 255, 256, 257]):
+        ops = [f"new cap={cap}"]
+        for i in range(66000 if tier == "quick" else 140000):
+            r = rng.random()
+            if r < 0.8:
+                ops.append(f"enqueue {rng.choice(WIDE) if rng.random() < 0.05 else i}")
+            else:
+                ops.append("dequeue")
+        ops += ["dequeue"] * (cap + 1) + ["destroy"]
+        out.append(ops)
+    return out
+
+
+RbufGen.scale = _rbuf_scale
 GENS = {g.name: g for g in [RbufGen()]}
 
 # every tools/gens_<k>.py registers itself through a module-level GEN (or GENS list)
